@@ -186,11 +186,10 @@ def backup (s : St) (dest : String) : St × Res :=
   withDB s fun db =>
     let d := dirOf s db
     let old := (s.world.get dest).getD DirSt.empty
-    let data := d.data.foldl (fun acc (x : Nat × FileSt) => setFile acc x.1 { x.2 with synced := x.2.bytes.size }) old.data
-    let hint := match d.hint with
-      | some h => some h
-      | none => old.hint
-    ({ s with world := s.world.set dest { old with data := data, hint := hint } }, .ok)
+    -- the copy holds exactly the source's data files and hint file: what an earlier backup left in `dest` and the
+    -- source no longer has is removed first (`removeStaleBackupFiles`), everything else is overwritten by `CopyDir`
+    let data := d.data.map (fun (x : Nat × FileSt) => (x.1, { x.2 with synced := x.2.bytes.size }))
+    ({ s with world := s.world.set dest { old with data := data, hint := d.hint } }, .ok)
 
 /-! ## database-level iterator (abstract cursor over the sorted snapshot; the per-shard machinery
     is `Model/ShardIter.lean`) -/
@@ -212,11 +211,15 @@ def iterNew (db : DB) (pre : ByteArray) (rev : Bool) : Iter :=
 
 def Iter.rewind (it : Iter) : Iter := Iter.skip { it with cur := 0 }
 def Iter.next (it : Iter) : Iter := if it.cur < it.items.length then Iter.skip { it with cur := it.cur + 1 } else it
-/-- forward seek: first item at or after the cursor's snapshot order with key ≥ k (≤ k reversed) -/
+/-- `Seek` never moves backwards: nothing on an exhausted iterator, nothing when `k` lies before the
+    current key in iteration order; otherwise the first item of the snapshot with key ≥ k (≤ k reversed) -/
 def Iter.seek (it : Iter) (k : ByteArray) : Iter :=
-  if it.cur < it.items.length then
-    let n := (it.items.takeWhile (fun x => if it.rev then keyLt k x.1 else keyLt x.1 k)).length
-    Iter.skip { it with cur := n }
-  else it
+  match it.items[it.cur]? with
+  | none => it
+  | some c =>
+    if (if it.rev then keyLt c.1 k else keyLt k c.1) then it
+    else
+      let n := (it.items.takeWhile (fun x => if it.rev then keyLt k x.1 else keyLt x.1 k)).length
+      Iter.skip { it with cur := n }
 
 end XixiKV.Engine
